@@ -72,6 +72,8 @@ class ChannelItem(EFLRItem, DimensionedItem):
         # but determined from the data at the last write; they are determined anew at every write
         self._determined_from_data: set[str] = set()
         self._n_assignments_when_determined: dict[str, int] = {}  # to recognise later assignments made by the user
+        # the same for 'dimension' / 'element_limit' when one was copied from the other at a check of the channel
+        self._n_assignments_when_defaulted: dict[str, int] = {}
 
         self.long_name = EFLROrTextAttribute('long_name', object_class=LongNameSet)
         self.properties = PropertiesAttribute('properties')
@@ -212,15 +214,25 @@ class ChannelItem(EFLRItem, DimensionedItem):
     def _run_checks_and_set_defaults(self) -> None:
         """Set up default values of ChannelItem parameters if not explicitly set previously."""
 
+        # a dimension / element limit copied from the other one at an earlier check follows that one: it is dropped
+        # (and copied anew below), unless the user has assigned it in the meantime
+        for attr_name, n_assignments in self._n_assignments_when_defaulted.items():
+            attr = getattr(self, attr_name)
+            if attr.n_value_assignments == n_assignments:
+                attr._value = None
+        self._n_assignments_when_defaulted.clear()
+
         if not self.element_limit.value and self.dimension.value:
             logger.debug(f"Setting element limit of channel '{self.name}' to the same value "
                          f"as dimension: {self.dimension.value}")
             self.element_limit.value = self.dimension.value
+            self._n_assignments_when_defaulted['element_limit'] = self.element_limit.n_value_assignments
 
         elif not self.dimension.value and self.element_limit.value:
             logger.debug(f"Setting dimension of channel '{self.name}' to the same value "
                          f"as element limit: {self.element_limit.value}")
             self.dimension.value = self.element_limit.value
+            self._n_assignments_when_defaulted['dimension'] = self.dimension.n_value_assignments
 
         elif self.element_limit.value != self.dimension.value:
             if not self._compare_element_limit_vs_dimension(self.element_limit.value, self.dimension.value):
